@@ -109,6 +109,9 @@ FIXED = [
     ("fix: the cost function never prefers", "C17", "`select a, b from t1 where a in (select a from t2)` on an empty t1 (disk, real statistics): un-rewritten IN subquery kept at cost 0, executor panicked 'column not found from input'; NOT IN over an empty subquery: NaN cost, egg extractor unwrap (44 cases)"),
     ("fix: a LIMIT / OFFSET that is not", "C17", "`select a from t1 limit (select count(*) from t2)`: panic in the row estimate / executor builder"),
     ("fix: INSERT refuses to truncate a fractional value", "C16", "`insert into t values (1.5, 7)` into x INT / BIGINT / SMALLINT (any constraint, both engines): stored 1 (24 cases, listed as known findings until repaired)"),
+    ("fix: a key-range scan starts before the first block", "C13", "pk table, 64-byte blocks (12 INT keys per block), keys 0..9 then 30 rows with k = 10: `select count(*) from t where k = 10` returned 4, `k >= 10` lost the same rows (36 cases of the key sets whose duplicates straddle block boundaries; pointed out by a seeding agent, missed before because the duplicates of the original key set did not straddle a boundary)"),
+    ("fix: remove the and-null / or-null rewrite rules", "C14", "`select i, null and q from t`: NULL for q = false (SQL: false); `null or q`: NULL for q = true"),
+    ("fix: the untyped NULL is accepted as an operand", "C14", "`select i from t where (null and q) and p is not null`: filter operator panicked 'filters can only accept bool array'; `a = null`, `a + null`: 'no function eq(Int32, NULL)' (80 cases)"),
     ("fix: nullable block iterator keeps the validity", "C06", "int16 nullable plain, block 32, 81-row pattern, script [next(1), next(7)]: a batch spanning a block boundary lost rows / reported wrong row ids (155 050 cases)"),
 ]
 
